@@ -138,6 +138,9 @@ def rule_nonce_consumed(ctx: Ctx, rep: Report) -> None:
         if ctx.prog.has_func(q):
             r = ctx.func(q).node.returns
             rep.ob(rule, f"{q}:returns_bytearray", r is not None and "bytearray" in norm(r), ctx.func(q).where(), f"returns {norm(r) if r is not None else None}")
+    rebound = [n for n in own_nodes(fi.node) if isinstance(n, (ast.Assign, ast.AnnAssign, ast.AugAssign)) and any(isinstance(t, ast.Name) and t.id == p for t in (n.targets if isinstance(n, ast.Assign) else [n.target]))]
+    rep.ob(rule, "sign:param_never_rebound", not rebound, fi.where(rebound[0] if rebound else None),
+           "the caller's buffer is the one read and zeroed" if not rebound else f"`{norm(rebound[0])[:70]}` rebinds the parameter: what is zeroed afterwards is a copy, the caller's nonce survives")
     ann = fi.node.args.args[0].annotation
     rep.ob(rule, "sign:param_is_bytearray", ann is not None and norm(ann) == "bytearray", fi.where(), f"sec_nonce: {norm(ann) if ann is not None else None}")
     rep.floor(rule, 9)
@@ -459,6 +462,44 @@ def rule_cache_values(ctx: Ctx, rep: Report) -> None:
                 rep.ob(rule, f"memo_field:{f}@{fi.qualname}", ok, fi.where(c), "written by its owner" if ok else "a second writer of a memo field")
 
 
+def rule_memo_keys(ctx: Ctx, rep: Report) -> None:
+    """C20.memo_keys: a hand-written module-level memo refuses, inside its miss
+    branch, only on what its key determines -- or a hit skips the refusal."""
+    rule = "C20.memo_keys"
+    n = 0
+    for fi in sorted(ctx.prog.functions.values(), key=lambda f: f.qualname):
+        mi = fi.module
+        locals_ = {x.id for x in own_nodes(fi.node) if isinstance(x, ast.Name) and isinstance(x.ctx, ast.Store)} | set(fi.params())
+        for st in own_nodes(fi.node):
+            if not (isinstance(st, ast.If) and isinstance(st.test, ast.Compare) and isinstance(st.test.ops[0], ast.NotIn) and isinstance(st.test.comparators[0], ast.Name)):
+                continue
+            cache = st.test.comparators[0].id
+            if cache not in mi.assigns or cache in locals_:
+                continue
+            stores = [x for s in st.body for x in ast.walk(s) if isinstance(x, ast.Subscript) and isinstance(x.ctx, ast.Store) and norm(x.value) == cache]
+            if not stores:
+                continue
+            n += 1
+            kt = norm(st.test.left)
+            rep.ob(rule, f"{fi.qualname}:{cache}:same_key", all(norm(x.slice) == kt for x in stores), fi.where(st), f"tested and stored under the same key `{kt}`")
+            params = set(fi.params())
+            bad = []
+            for s in st.body:
+                for r in ast.walk(s):
+                    if isinstance(r, ast.If) and any(isinstance(x, ast.Raise) for b in r.body for x in ast.walk(b)):
+                        for e in ast.walk(r.test):
+                            if isinstance(e, (ast.Attribute, ast.Name)) and not isinstance(parent(e), ast.Attribute):
+                                t = norm(e)
+                                root = t.split(".")[0]
+                                if root in params and not (t == kt or t.startswith(kt + ".") or t.startswith(kt + "[")):
+                                    bad.append(t)
+            rep.ob(rule, f"{fi.qualname}:{cache}:refusals_determined_by_key", not bad, fi.where(st),
+                   f"every refusal in the miss branch reads only `{kt}`" if not bad else
+                   f"the miss branch refuses on {sorted(set(bad))}, which the key `{kt}` does not determine: a cache hit skips the refusal and answers for an input it would have refused")
+    if n < 1:
+        raise AnalysisError("no module-level memo found (ellswift._constants expected)")
+
+
 def rule_backend_flag(ctx: Ctx, rep: Report) -> None:
     """C20.backend_flag: the backend flag has one writer and nobody keeps its answer (shared with C04)."""
     from rules.C04 import rule_flag_owner
@@ -477,6 +518,7 @@ RULES = [
     ("C20.wordlists_lock", rule_wordlists_lock),
     ("C20.cache_values", rule_cache_values),
     ("C20.backend_flag", rule_backend_flag),
+    ("C20.memo_keys", rule_memo_keys),
 ]
 
 CONTROLS = [
@@ -485,6 +527,10 @@ CONTROLS = [
     {"rule": "C20.nonce_consumed", "name": "partial_sign hands sign a copy of the nonce", "module": "btclib.psbt.musig2",
      "edit": lambda ctx: M.sub_expr(ctx, "btclib.psbt.musig2.partial_sign", lambda n: isinstance(n, ast.Call) and call_name(n) == "sign" and n.args and norm(n.args[0]) == "sec_nonce",
                                     lambda n: norm(n).replace("(sec_nonce", "(bytearray(sec_nonce)", 1))},
+    {"rule": "C20.memo_keys", "name": "ellswift constants memoized per prime", "module": "btclib.ecc.ellswift",
+     "edit": lambda ctx: ctx.module("btclib.ecc.ellswift").source.replace("if ec not in _CONSTANTS:", "if ec.p not in _CONSTANTS:").replace("_CONSTANTS[ec] =", "_CONSTANTS[ec.p] =").replace("return _CONSTANTS[ec]", "return _CONSTANTS[ec.p]")},
+    {"rule": "C20.nonce_consumed", "name": "sign copies a non-bytearray nonce", "module": MUSIG,
+     "edit": lambda ctx: M.sub_expr(ctx, f"{MUSIG}.sign", lambda n: isinstance(n, ast.Assign) and norm(n.targets[0]) == "values", "sec_nonce = bytearray(sec_nonce)\n    values = session_values(session_ctx)")},
     {"rule": "C20.flag_checked", "name": "dsa.Signer.sign_ forgets the wiped check", "module": "btclib.ecc.dsa",
      "edit": lambda ctx: M.drop_if(ctx, "btclib.ecc.dsa.Signer.sign_", lambda n: norm(n.test) == "self._wiped")},
     {"rule": "C20.flag_checked", "name": "SoftwareSigner.sign_message forgets _assert_open", "module": "btclib.psbt_signer",
